@@ -136,6 +136,14 @@ def scenario(root, srcname, srcform, oloc, eloc, verbose, fname="prog.asm"):
     if eloc == "sameflash":
         # the very file the flash image goes to: cannot hold both images
         earg, epath, ew = (oarg or opath), opath, False
+    elif eloc == "hardflash":
+        # another name (a hard link) of the file the flash image goes to: one file, cannot hold both images
+        if not os.path.exists(opath):
+            with open(opath, "w") as f:
+                f.write("")
+        epath = os.path.join(root, "out", "eep-linked.hex")
+        os.link(opath, epath)
+        earg, ew = epath, False
     else:
         earg, epath, ew = place(eloc, "eep", stem_of(fname) + ".eep.hex")
     if oarg:
@@ -231,6 +239,7 @@ def check(prop, tier, seed):
         for srcname in ("code+eeprom", "code", "fail-pass2"):
             for srcform, oloc in (("abs", "writable"), ("rel-here", "default"), ("rel-dir", "existing")):
                 combos.append((srcname, srcform, oloc, "sameflash", False, "prog.asm"))
+                combos.append((srcname, srcform, oloc, "hardflash", False, "prog.asm"))
         runs, libjobs = [], []
         for i, (srcname, srcform, oloc, eloc, verbose, fname) in enumerate(combos):
             root = scratch.sub("r%d" % i)
@@ -246,7 +255,7 @@ def check(prop, tier, seed):
             if oloc == "fsize":
                 fst["recs"] = []          # a file cut short has no meaning; the specification does not look at it
             est = file_state(epath, before, after)
-            if eloc == "sameflash":
+            if eloc in ("sameflash", "hardflash"):
                 est = {"present": False, "changed": False, "recs": []}      # there is no EEPROM file of its own
             runs.append({"argv": argv, "cwd": cwd[len(root):] or "/", "src": srcname, "oloc": oloc, "eloc": eloc,
                          "flash": fst, "eep": est,
